@@ -34,7 +34,12 @@ def plan(tier):
             if r < 3:
                 p.append((S.T2(shared=sub).variant(f"/shared={tag}"), 0 if q else 1, 0.5))
     p.append((S.T2("cluster1.net6 cluster2.net6", params={"pool_scope": "own swarm shared", "max_tries": 2}, own={"cluster2.net6": S.VM1_CHAIN}).variant("/clusters,scope=own+swarm+shared,mt=2,own(c2.net6)=chain"), 1 if q else 2, 1))
+    # durations that add up beyond one timeout budget although every single test stays below it (budget 10 back-off periods)
+    p.append((S.T1(params={"test_timeout": 1}, D=(1.0, 9.0, 6.0)).variant("/timeout=10p,D<=9p"), 2 if q else 3, 2))
     p.append((S.T1("net0").variant("/serial"), 2 if q else 3, 0.5))
+    # a result that is never reported still consumes the try
+    p.append((S.T1("net1 net2", shared=S.VM1_CHAIN, O=("PASS", "NORESULT"), D=(1.0,)).variant("/leaf-only,O=PASS+NORESULT"), 1 if q else 2, 0.5))
+    p.append((S.T2("net1 net2", shared=S.VM1_CHAIN[:2], O=("PASS", "NORESULT"), D=(1.0,)).variant("/O=PASS+NORESULT"), 1, 0.5))
     # lazily parsed graph with clones
     p.append((S.G2(), 0 if q else 1, 3))
     return p
